@@ -288,7 +288,13 @@ def decode_goes_through_resolve(chk: Check, repo: Repo, classes: dict) -> None:
     tk = repo.func("xknx.cemi.cemi_frame", "CEMILData.to_knx")
     chk.unit(tk)
     tc = CFG(tk.node)
-    enc = [n.id for n in tc.nodes if n.ast is not None and n.kind in ("stmt", "test") and any(isinstance(c, ast.Call) and call_name(c) == "self.tpci.to_knx" for c in ast.walk(n.ast))]
+    def into_frame(a: ast.AST) -> bool:
+        # the octet goes into the TPDU (an assignment / |= of it) - handing it to TPCI.resolve for validation does not count
+        if not isinstance(a, (ast.Assign, ast.AugAssign, ast.AnnAssign)):
+            return False
+        inside_resolve = {id(x) for c in ast.walk(a) if isinstance(c, ast.Call) and call_name(c) == "TPCI.resolve" for x in ast.walk(c)}
+        return any(isinstance(c, ast.Call) and call_name(c) == "self.tpci.to_knx" and id(c) not in inside_resolve for c in ast.walk(a))
+    enc = [n.id for n in tc.nodes if n.ast is not None and n.kind == "stmt" and into_frame(n.ast)]
     chk.ob("encoding-goes-through-to_knx", tk.site(), bool(enc) and tc.all_paths_hit(tc.entry, enc, ends=[tc.exit]), f"CEMILData.to_knx: {len(enc)} statements put self.tpci.to_knx() into the frame; " + ("every path to the return passes one" if enc and tc.all_paths_hit(tc.entry, enc, ends=[tc.exit]) else "some path returns a frame without the PDU's control octet"), key="to_knx|cemi")
     # nobody else constructs a transport PDU while parsing: TPCI classes are instantiated only in resolve, and where the
     # library builds outgoing telegrams (not in any from_knx)
